@@ -3,6 +3,7 @@
   Oracles: `attrs` (jwt.Parse), `sigOK` (jws.Verify with the configured key set). The theorems hold for every oracle.
 -/
 import AuthProofs.Ladder
+import AuthProofs.CodeEquivOidc
 namespace AuthProps.C02
 open AuthModel AuthModel.Oidc
 
@@ -73,6 +74,22 @@ example : nonceAccepted { exp := 0, aud := [], nonce := .str (B "n") } (B "n") t
 example : nonceAccepted { exp := 0, aud := [], nonce := .str [] } (B "n") true = false := by decide
 example : nonceAccepted { exp := 0, aud := [], nonce := .other } (B "n") false = false := by decide
 
+/-- `encodeTokensToHeaders` (with `encodeHeaderValue`) AS TRANSLATED FROM THE GO SOURCE on this run never panics
+    for a live handler and token set and produces exactly the model's `encodeTokens` - the ID token always, the access
+    token when forwarding is configured and one is held, each under its configured header and preamble (and, as a Go
+    map has one value per key, equal header names keep only the access token: the recorded finding). -/
+theorem code_forwarded_headers (env : Go.Env) (o : Pb.OidcHandler) (t : Pb.TokenResponse) (cfg : Cfg) (tok : Tokens)
+    (ho : o.isNil = false) (hc : o.config.isNil = false) (ht : t.isNil = false)
+    (hid : cfg.idHeader = o.config.IdToken.GetHeader) (hpre : cfg.idPreamble = o.config.IdToken.GetPreamble)
+    (hacc : cfg.access = if o.config.AccessToken.isNil then none
+      else some (o.config.AccessToken.Header, o.config.AccessToken.Preamble))
+    (h1 : tok.idToken = t.IDToken) (h2 : tok.accessToken = t.AccessToken) :
+    Code.encodeTokensToHeaders env o t = .ok (encodeTokens cfg tok) :=
+  code_encodeTokens env o t cfg tok ho hc ht hid hpre hacc h1 h2
+
+example : Code.encodeTokensToHeaders {} { config := { IdToken := { isNil := false, Header := B "authorization", Preamble := B "Bearer" } } }
+    { IDToken := B "tok" } = .ok [(B "authorization", B "Bearer tok")] := by decide
+
 end AuthProps.C02
 
 #print axioms AuthProps.C02.bound_only_validated
@@ -82,3 +99,4 @@ end AuthProps.C02
 #print axioms AuthProps.C02.forwarded_eq_bound
 #print axioms AuthProps.C02.same_header_drops_id
 #print axioms AuthProps.C02.ok_headers
+#print axioms AuthProps.C02.code_forwarded_headers
